@@ -13,7 +13,7 @@ from cfg import const_int
 
 class AbsInt:
     def __init__(self, body, cfg, tracer, edge_labels=None, events=None, on_assign=None, max_states=400000,
-                 reset_at=(), reset_prefixes=(), reset_counters=()):
+                 reset_at=(), reset_prefixes=(), reset_counters=(), edge_filter=None):
         self.body = body
         self.cfg = cfg
         self.tr = tracer
@@ -21,6 +21,7 @@ class AbsInt:
         self.events = events or (lambda bb: None)
         self.on_assign = on_assign
         self.max_states = max_states
+        self.edge_filter = edge_filter
         self.reset_at = set(reset_at)
         self.reset_prefixes = tuple(reset_prefixes)
         self.reset_counters = set(reset_counters)
@@ -134,6 +135,10 @@ class AbsInt:
             self._labels_cache[bb] = labels
         sf = frozenset(store.items())
         out = []
+        if self.edge_filter is not None:
+            drop = self.edge_filter(bb, store)
+            if drop:
+                succs = [s for s in succs if s not in drop]
         for s in succs:
             fl = flags
             add = labels.get(s)
